@@ -80,14 +80,41 @@ class Report:
         """Run one deductive part of a check; if the part itself breaks (a function under contract was
         renamed or removed, an unexpected shape) the part is undecided - never a crash of the check and
         never a violation."""
+        import signal
+
+        limit = int(os.environ.get("VERIF_PART_SECONDS", "600" if self.tier == "quick" else "3600"))
+
+        class _PartTimeout(Exception):
+            pass
+
+        def _on_alarm(*a):
+            raise _PartTimeout(f"no result within {limit} s")
+
+        old_handler = None
+        try:
+            old_handler = signal.signal(signal.SIGALRM, _on_alarm)
+            signal.alarm(limit)
+        except Exception:  # noqa: BLE001 - not in the main thread
+            old_handler = None
         try:
             return fn(*args, **kwargs)
+        except _PartTimeout as e:
+            # a changed function can make the path exploration blow up: the part is undecided, the check goes on
+            self.undecide(f"{what}: this part of the check was stopped ({e}); decided by the bounded part")
+            return None
         except Exception as e:  # noqa: BLE001
             import traceback
 
             self.undecide(f"{what}: this part of the check could not run ({type(e).__name__}: {str(e)[:200]})")
             self.extra.setdefault("part_failures", []).append(dict(part=what, traceback=traceback.format_exc()[-1500:]))
             return None
+        finally:
+            try:
+                signal.alarm(0)
+                if old_handler is not None:
+                    signal.signal(signal.SIGALRM, old_handler)
+            except Exception:  # noqa: BLE001
+                pass
 
     # ---- finishing -----------------------------------------------------------------------
     def finish(self, explanation="", rule="", exhaustive=None):
